@@ -61,7 +61,11 @@ def plan(tier, seed):
         system = ['alzr', 'nialcr', 'almgsi', 'nialcr', 'alzr'][i % 5]
         cfg = precip_gen.gen_config(r, system=system, tier=tier, allow_noniso=False, grid_class='in_range', allow_elastic=True)
         cfg['max_steps'] = min(cfg['max_steps'], 1200 if tier == 'quick' else 3000)
-        cases.append({'kind': 'trajectory', 'cfg': cfg, 'weight': precip_gen.cfg_weight(cfg)})
+        case = {'kind': 'trajectory', 'cfg': cfg, 'weight': precip_gen.cfg_weight(cfg)}
+        if i % 2 == 1:
+            case['rerun'] = float(r.choice([1.1, 1.25, 1.5]))
+            case['weight'] *= 1.5
+        cases.append(case)
     return cases
 
 
@@ -152,6 +156,26 @@ def _trajectory(case, R):
         return
     if run.error is not None:
         R.observe('runs_ended_by_exception')
+    elif case.get('rerun'):
+        # calibration-sweep history on ONE model object: reset, change the interfacial energy, solve again
+        # (added after seeded change C12-b: cached nucleation factors survived a change of the interfacial energy)
+        from vlib.core import StopRun
+        m = run.model
+        try:
+            m.reset()
+            for p in cfg['phases']:
+                m.setInterfacialEnergy(cfg['gamma'][p] * case['rerun'], phase=p)
+            run.observer.max_steps = run.observer.steps + min(cfg['max_steps'], 600)
+            run.ctx = None
+            m.solve(sum(cfg['segments']), solverType=run.iterator)
+        except StopRun:
+            pass
+        except ValueError as e:
+            R.observe('rerun_rejected')
+        except Exception as e:
+            R.observe('rerun_ended_by_exception')
+            R.info['rerun_error'] = '%s: %s' % (type(e).__name__, str(e)[:200])
+        R.observe('reruns_with_changed_interfacial_energy')
     both = R.observed.get('c12_states_both_signs', 0)
     R.info.update({'system': cfg['system'], 'steps': run.steps, 'states': R.observed.get('c12_states', 0), 'both_sides': both,
                    'shape': cfg.get('shape'), 'sites': cfg.get('site')})
